@@ -8,7 +8,7 @@ use vkit::rng::Rng;
 pub fn def() -> PropDef {
     PropDef {
         id: "C06",
-        rule: "cases are seed-derived builder histories (scenario engine: parameters, key ring, UTxO table, operation list over the public TransactionBuilder API, balancing call, build_tx); judged: every history in which balancing and build_tx reported success; non-trivial = a transaction was built; distinct by hash of the built transaction bytes; the built transaction is signed with exactly the distinct required keys (ring keys; genuine signatures on 1/16 of the cases, fixed-content 64-byte signatures otherwise) and the Conway minimum fee is recomputed on the signed bytes",
+        rule: "cases are seed-derived builder histories (scenario engine: parameters, key ring, UTxO table, operation list over the public TransactionBuilder API, balancing call, build_tx); judged: every history in which balancing and build_tx reported success, and every history in which balancing reported success with a fee of the builder's choice and build_tx then refused that fee as below its own minimum (a script data hash first computed after balancing excepted); the fee request may come before or after balancing; non-trivial = a transaction was built; distinct by hash of the built transaction bytes; the built transaction is signed with exactly the distinct required keys (ring keys; genuine signatures on 1/16 of the cases, fixed-content 64-byte signatures otherwise) and the Conway minimum fee is recomputed on the signed bytes",
         assumptions: ASSUMPTIONS,
         streams,
         floors: &[("outcome.built", 3_000), ("c06.fee-sufficient", 2_500), ("signed.with-bootstrap", 100), ("fee.set_min_fee", 50), ("c06.exact-fee-used", 20), ("feature.redeemers", 300), ("feature.native-scripts", 300)],
